@@ -295,6 +295,47 @@ h_contract_cmp(void)
 	WITNESS();
 }
 
+/* the crop main() applies before its range test: dt_fixup() on date-only and
+ * on date-time values crops the day to the month's end and leaves the time
+ * alone; times of day pass unchanged */
+void
+h_contract_fixup(void)
+{
+	ND(i32, vy);
+	ND(i32, vm);
+	ND(i32, vd);
+	ND(u8, vh);
+	ND(u8, vmi);
+	ND(u8, vs);
+	ND(u8, vkind);
+	struct dt_dt_s d, r;
+	int md;
+
+	ASSUME(vy > REF_MIN_YEAR && vy < REF_MAX_YEAR && vm >= 1 && vm <= 12 && vd >= 1 && vd <= 31);
+	ASSUME(vh < 24 && vmi < 60 && vs < 60);
+	ASSUME(vkind <= 2);
+	memset(&d, 0, sizeof(d));
+	if (vkind == 0) {
+		d.d.ymd.y = vy, d.d.ymd.m = vm, d.d.ymd.d = vd;
+		dt_make_d_only(&d, DT_YMD);
+	} else if (vkind == 1) {
+		d.d.ymd.y = vy, d.d.ymd.m = vm, d.d.ymd.d = vd;
+		d.t.hms.h = vh, d.t.hms.m = vmi, d.t.hms.s = vs;
+		dt_make_sandwich(&d, DT_YMD, DT_HMS);
+	} else {
+		d.t.hms.h = vh, d.t.hms.m = vmi, d.t.hms.s = vs;
+		dt_make_t_only(&d, DT_HMS);
+	}
+	r = dt_fixup(d);
+	md = ref_mdays(vy, vm);
+	if (vkind <= 1) {
+		CHECK((int)r.d.ymd.y == vy && (int)r.d.ymd.m == vm && (int)r.d.ymd.d == (vd > md ? md : vd),
+		      "the day is cropped to the month's end, for dates and for date-times");
+	}
+	CHECK(r.t.u == d.t.u && r.typ == d.typ && r.sandwich == d.sandwich && r.d.typ == d.d.typ, "nothing else changes");
+	WITNESS();
+}
+
 #else  /* !PART_CONTRACT */
 # define dt_dtadd	vf_dtadd
 # define dt_dtcmp	vf_dtcmp
